@@ -69,7 +69,8 @@ def merger : Shape → Shape → Shape
   | .array t _, .null => .array t true
   | .array t o, .array t' p => .array (merger t t') (o || p)
   | .array t opt, .tuple es optional =>
-      .array (.oneOf (setExtend (arrayElemVariants t []) (es.map asNonOptional)) false) (opt || optional)
+      let v0 := if es.any isOptional || t.isOptional then setInsert .null [] else []
+      .array (.oneOf (setExtend (arrayElemVariants t v0) (es.map asNonOptional)) false) (opt || optional)
   | .array t o, .oneOf vs p => .oneOf (addToOneOf (.array t o) vs) p
   | .array t o, b => mixed (.array t o) b
   -- Object
